@@ -46,13 +46,16 @@ def kit():
   class OtherPlug(bp.BasePlug):
     pass
 
+  class TrigPlug(bp.BasePlug):
+    pass
+
   def d1(rec):
     return dl.Diagnosis(R.A, 'first')
 
   def d2(rec):
     return None
 
-  _K.update(RealPlug=RealPlug, OtherPlug=OtherPlug, diag1=dl.PhaseDiagnoser(R, name='d1')(d1),
+  _K.update(RealPlug=RealPlug, OtherPlug=OtherPlug, TrigPlug=TrigPlug, diag1=dl.PhaseDiagnoser(R, name='d1')(d1),
             diag2=dl.PhaseDiagnoser(R, name='d2')(d2))
   return _K
 
@@ -228,7 +231,13 @@ def build_test(t):
   return test, cap
 
 
-def execute(t, with_b=False, cache=None):
+def decl_state(test):
+  """What the Test was declared with, as far as a run could reach it."""
+  return (snap(test.descriptor.phase_sequence), repr(sorted(test.descriptor.metadata.get('notes', {}).items())),
+          tuple(sorted(getattr(c, '__name__', repr(c)) for c in test.descriptor.plug_types)))
+
+
+def execute(t, with_b=False, cache=None, trigger=False):
   key = snap(t)
   if cache is None or key not in cache:
     entry = build_test(t)
@@ -239,14 +248,24 @@ def execute(t, with_b=False, cache=None):
   test, cap = entry
   del cap.records[:]
   DIAG_B[0] = bool(with_b)
-  before = (snap(test.descriptor.phase_sequence), repr(sorted(test.descriptor.metadata.get('notes', {}).items())))
+  before = decl_state(test)
+  test_start = None
+  if trigger:
+    # a start trigger that needs a plug none of the test's own phases declares
+    L = progs.lib()
+
+    def trig(test_api, tp):
+      test_api.dut_id = 'dut-from-trigger'
+
+    trig.__name__ = 'trig'
+    test_start = L['htf'].plugs.plug(tp=kit()['TrigPlug'])(L['htf'].PhaseOptions(name='trig')(trig))
   try:
-    res = test.execute()
+    res = test.execute(test_start=test_start)
   except BaseException as e:  # pylint: disable=broad-except
     res = e
   finally:
     DIAG_B[0] = False
-  after = (snap(test.descriptor.phase_sequence), repr(sorted(test.descriptor.metadata.get('notes', {}).items())))
+  after = decl_state(test)
   if before != after:
     MUTATED.append(first_diff(before, after))
   recs = list(cap.records)
@@ -304,6 +323,9 @@ def run_history(hist):
         if r1 != r2:
           bad.append(('run-depends-on-earlier-run', 'executing %s after a run whose plug constructor failed gave %r, before it %r'
                       % (label, r2, r1)))
+      elif name == 'execute_trigger':
+        changed_ok = set()
+        execute(target, False, tests, trigger=True)
       elif name in ('execute', 'execute_B'):
         r1 = execute(target, name == 'execute_B', tests)
         r2 = execute(target, name == 'execute_B', tests)
@@ -352,7 +374,7 @@ def first_diff(a, b, path=''):
 
 def histories(tier):
   derive, mutate = ops()
-  names = list(derive) + list(mutate) + ['execute', 'execute_B', 'execute_ctorfail']
+  names = list(derive) + list(mutate) + ['execute', 'execute_B', 'execute_ctorfail', 'execute_trigger']
   depth = 3 if tier == 'quick' else 4
   for d in range(1, depth + 1):
     for combo in itertools.product(names, repeat=d):
@@ -371,11 +393,23 @@ def histories(tier):
         yield list(zip(combo, srcs))
 
 
+NESTERS = ['sequence', 'group_main', 'group_teardown', 'subtest', 'branch', 'copy']
+
+
+def chain_histories():
+  """Three nestings on top of each other (X -> a -> b -> c), then a modification of the innermost phase of c, or an
+  execution: nesting two levels deep must still copy."""
+  derive, mutate = ops()
+  for a, b, c in itertools.product(NESTERS, repeat=3):
+    for last in list(mutate) + ['execute']:
+      yield [(a, 0), (b, 3), (c, 4), (last, 5)]
+
+
 def _work(item):
   tier, start, step = item
   n, viols, outs = 0, [], set()
   sample = None
-  for i, hist in enumerate(histories(tier)):
+  for i, hist in enumerate(itertools.chain(histories(tier), chain_histories())):
     if i % step != start:
       continue
     # prune: mutations/executions only make sense once something was derived; keep history space small
